@@ -4,6 +4,7 @@ package props
 // C20 — session end restarts cleanly; termination stays blocked.
 
 import (
+	"encoding/json"
 	"testing"
 
 	"pgregory.net/rapid"
@@ -160,7 +161,7 @@ func checkC18(c ModelCase) (o Outcome) {
 	return
 }
 
-var c20Opts = GenOpts{MaxNodes: 5, MultiHalt: true, Flags: true, ReservedFl: true, CacheSize: true, EchoInput: true, Errors: false, Sinks: true, ResetEmpty: true}
+var c20Opts = GenOpts{MaxNodes: 5, MultiHalt: true, Flags: true, ReservedFl: true, CacheSize: true, EchoInput: true, Errors: false, Sinks: true, ResetEmpty: true, PostCroak: true}
 
 var c20Modes = []app.Mode{{Kind: "persist", Backend: "mem"}, {Kind: "persist", Backend: "fs"}, {Kind: "persist", Backend: "pg"}, {Kind: "persist", Backend: "fsbin"}}
 
@@ -190,7 +191,9 @@ func checkC20(c ModelCase) (o Outcome) {
 	v, f, discard := modelDiff(c.App, c.Inputs, c.Mode, asp, hooksFor(c))
 	o.Viol, o.Discard = v, discard
 	if v == nil {
-		if bv := blockedRequestsInert(c); bv != nil {
+		bv, tol := blockedRequestsInertT(c)
+		o.Tolerated = append(o.Tolerated, tol...)
+		if bv != nil {
 			o.Viol = bv
 			return
 		}
@@ -218,6 +221,14 @@ func checkC20(c ModelCase) (o Outcome) {
 	return
 }
 
+func init() {
+	// F-C20-4: symbols left in the stored cache of an ended session, after a firing CROAK
+	// had left the cache scopes out of step with the navigation stack
+	knownPredicates["c20-ended-session-keeps-symbols-after-croak"] = func(sub string, raw json.RawMessage, v *Violation) bool {
+		return v.Kind == "ended-session-keeps-symbols" && v.Detail == "after-scopes-off"
+	}
+}
+
 var _ = registerReplay("C18", "model", checkC18)
 var _ = registerReplay("C20", "model", checkC20)
 
@@ -228,5 +239,5 @@ func TestC18(t *testing.T) {
 
 func TestC20(t *testing.T) {
 	runKnownExamples(t, "C20")
-	RunProp(t, "C20", "model", pick(2000, 15000), genC20, checkC20)
+	RunProp(t, "C20", "model", pick(3500, 15000), genC20, checkC20)
 }
